@@ -45,7 +45,7 @@ def run(ctx, args):
     edges = futs[-1].result()
     walks = build_walks(edges, rng=rng, n_random=(40 if quick else 400), depth=10)
     ops = [[e["o"] for e in w] for w in walks]
-    hist = int(os.environ.get("VERIF_NONCE_HIST", "0")) or (500 if quick else 30000)
+    hist = int(os.environ.get("VERIF_NONCE_HIST", "0")) or (1200 if quick else 40000)
     cases = os.path.join(ctx.scratch, "cases.json")
     with open(cases, "w") as fh:
         json.dump({"walks": ops, "histories": hist}, fh)
@@ -141,6 +141,7 @@ def run(ctx, args):
                        "how": "python3 tools/vcheck.py C12 --replay <this file> re-validates the recorded execution; "
                               "VERIF_SEED=%d python3 tools/vcheck.py C12 --tier %s re-runs the driver" % (ctx.seed, ctx.tier)})
     ctx.log("E2: %d executions accepted by TLC" % ctx.traces)
+    kernel_layer(ctx, d, rng, quick)
     collect_e3()
     ctx.assumptions += [
         "cryptographic hardness is assumed: challenges and responses are symbolic in the model (equality classes of the "
@@ -153,6 +154,58 @@ def run(ctx, args):
     ]
 
 
+def kernel_layer(ctx, d, rng, quick):
+    """kernel/cosi.go cosiRetrieveRandom / retainUsedCosiNonce + Response on a real kernel.Chain value."""
+    jobs = [("MC_KNonce_big.cfg", None), ("MC_KNonce_evict.cfg", None),
+            ("MC_KNonce_Reach_Refuse.cfg", "ReachRefuse"), ("MC_KNonce_Reach_Evict.cfg", "ReachEvict")]
+    with ThreadPoolExecutor(max_workers=4) as ex:
+        futs = [ex.submit(ctx.tlc_mc, d, "MC_KNonce.tla", cfg, 2, (), 900, False, inv, False) for cfg, inv in jobs]
+        edges = ctx.tlc_edges(d, "MC_KNonce.tla", "Gen_KNonce.cfg")
+        for (cfg, inv), f in zip(jobs, futs):
+            r = f.result()
+            if inv is None:
+                ctx.states += r["distinct"]
+                ctx.transitions += r["generated"]
+    walks = build_walks(edges, rng=rng, n_random=(50 if quick else 1000), depth=12)
+    cases = os.path.join(ctx.scratch, "kcases.json")
+    with open(cases, "w") as fh:
+        json.dump({"walks": [[e["o"] for e in w] for w in walks]}, fh)
+    trace = os.path.join(ctx.scratch, "ktrace.ndjson")
+    try:
+        ctx.go_harness("kernel", "^TestVerifKNonce$", env={"VERIF_CASES": cases, "VERIF_TRACE": trace}, timeout=1200)
+    except Infra as ex:
+        # the crypto-level verdict stands on its own; the kernel layer is reported as not run
+        ctx.notes.append("kernel layer (cosiRetrieveRandom) NOT checked in this run: %s" % str(ex)[:300])
+        ctx.cov["kernel_layer"] = "not run"
+        return
+    events = read_ndjson(trace)
+    n_exec = sum(1 for e in events if e["ev"] == "KReset")
+    steps = sum(1 for e in events if e["ev"] == "KOp")
+    ctx.evaluations += steps
+    r = ctx.tlc_trace(d, "Trace_KNonce.tla", "Trace_KNonce_full.cfg", trace, timeout=900)
+    if r["accepted"]:
+        ctx.traces += n_exec
+        ctx.cov["kernel_layer"] = "%d walks / %d steps covering %d edges of MC_KNonce accepted" % (n_exec, steps, len(edges))
+        ctx.log("E2 kernel layer: %d walks, %d steps accepted by TLC" % (n_exec, steps))
+        return
+    ctx.mismatches.append({"layer": "kernel", "line": r["line"], "invariant": r["invariant"],
+                           "event": events[r["line"] - 1] if r["line"] and r["line"] <= len(events) else None})
+    r2 = ctx.tlc_trace(d, "Trace_KNonce.tla", "Trace_KNonce_monitor.cfg", trace, timeout=900)
+    if r2["accepted"]:
+        ctx.traces += n_exec
+        ctx.cov["kernel_layer"] = "conformance mismatch not forbidden by C12"
+        ctx.notes.append("kernel layer: conformance mismatch not forbidden by C12 (see conformance_mismatches)")
+        return
+    line = r2["line"] or 1
+    first = max(i for i in range(line) if events[i]["ev"] == "KReset") if line <= len(events) else 0
+    last = next((i for i in range(first + 1, len(events)) if events[i]["ev"] == "KReset"), len(events))
+    ctx.violation("kernel layer: a nonce handed out by cosiRetrieveRandom answered in a way the single-use nonce "
+                  "specification forbids (monitor %s; event %s)"
+                  % (r2["invariant"] or "no enabled action", json.dumps(events[line - 1]) if line <= len(events) else "?"),
+                  {"layer": "kernel", "trace": events[first:last], "failing_index": line - 1 - first,
+                   "spec": "spec/Cosi/Trace_KNonce.tla", "cfg": "Trace_KNonce_monitor.cfg"})
+
+
 def replay(ctx, d, path):
     obj = json.load(open(path))
     evs = obj["replay"]["trace"]
@@ -160,7 +213,8 @@ def replay(ctx, d, path):
     with open(p, "w") as fh:
         for e in evs:
             fh.write(json.dumps(e) + "\n")
-    r = ctx.tlc_trace(d, "Trace_Nonce.tla", "Trace_Nonce_monitor.cfg", p)
+    spec = "Trace_KNonce" if obj["replay"].get("layer") == "kernel" else "Trace_Nonce"
+    r = ctx.tlc_trace(d, spec + ".tla", spec + "_monitor.cfg", p)
     ctx.evaluations = sum(1 for e in evs if e["ev"] == "Call")
     if r["accepted"]:
         ctx.traces = 1
